@@ -8,7 +8,10 @@
 -/
 import Scico.Proofs.Estim
 import Scico.Proofs.EstimNorms
+import Scico.Proofs.EstimConv
+import Scico.Proofs.EstimMat
 import Mathlib.Analysis.InnerProductSpace.Adjoint
+import Mathlib.Analysis.InnerProductSpace.Spectrum
 
 set_option linter.unusedSectionVars false
 
@@ -87,8 +90,8 @@ theorem C17_opnorm_mono (B : E →L[ℝ] E) (A : E →L[ℝ] F) (hG : IsGram B A
 
 /-- Scale equivariance: for every `s > 0`, however small or large, the estimate for `s • B` is `s` times the
     estimate for `B` (same start, same budget) — only an operator that maps the iterate to exactly `0` takes the
-    zero exit. -/
-theorem C17_scale (B : E →L[ℝ] E) (s : ℝ) (hs : 0 < s) (maxiter : Nat) (v0 : E) (m m' : ℝ) (v v' : E)
+    zero exit.  (`v0 ≠ 0`: guard of the normalisation, see `C17_zero_exact`.) -/
+theorem C17_scale (B : E →L[ℝ] E) (s : ℝ) (hs : 0 < s) (maxiter : Nat) (v0 : E) (_hv0 : v0 ≠ 0) (m m' : ℝ) (v v' : E)
     (h : powerIteration (opsOf B) maxiter v0 = .ok (m, v))
     (h' : powerIteration (opsOf (s • B)) maxiter v0 = .ok (m', v')) : m' = s * m := by
   obtain ⟨_, hp⟩ := powerIteration_ok B maxiter v0 m v h
@@ -99,7 +102,7 @@ theorem C17_scale (B : E →L[ℝ] E) (s : ℝ) (hs : 0 < s) (maxiter : Nat) (v0
   simpa using this
 
 /-- hence `operator_norm(c·A) = |c|·operator_norm(A)` for `c ≠ 0` (Gram operator `c²·B`) -/
-theorem C17_opnorm_scale (B : E →L[ℝ] E) (c : ℝ) (hc : c ≠ 0) (maxiter : Nat) (v0 : E) (n n' : ℝ)
+theorem C17_opnorm_scale (B : E →L[ℝ] E) (c : ℝ) (hc : c ≠ 0) (maxiter : Nat) (v0 : E) (hv0 : v0 ≠ 0) (n n' : ℝ)
     (h : operatorNorm (opsOf B) maxiter v0 = .ok n)
     (h' : operatorNorm (opsOf ((c ^ 2) • B)) maxiter v0 = .ok n') : n' = |c| * n := by
   unfold operatorNorm at h h'
@@ -109,14 +112,16 @@ theorem C17_opnorm_scale (B : E →L[ℝ] E) (c : ℝ) (hc : c ≠ 0) (maxiter :
     · rename_i mu' v' hp'
       simp only [Except.ok.injEq] at h h'
       subst h; subst h'
-      rw [C17_scale B (c ^ 2) (by positivity) maxiter v0 mu mu' v v' hp hp']
+      rw [C17_scale B (c ^ 2) (by positivity) maxiter v0 hv0 mu mu' v v' hp hp']
       show Real.sqrt (c ^ 2 * mu) = |c| * Real.sqrt mu
       rw [Real.sqrt_mul (sq_nonneg c), Real.sqrt_sq_eq_abs]
     · cases h'
   · cases h
 
-/-- The zero operator: the estimate is exactly `0` (and the returned vector `0`) for every budget ≥ 1. -/
-theorem C17_zero_exact (k : Nat) (v0 : E) :
+/-- The zero operator: the estimate is exactly `0` (and the returned vector `0`) for every budget ≥ 1.
+    (`v0 ≠ 0` is the guard of the normalisation `v0 / ‖v0‖`: over `ℝ` the model totalises `0/0 = 0`, whereas the
+    code would produce NaN for a zero start — the proof does not need the guard, the *reading* of the theorem does.) -/
+theorem C17_zero_exact (k : Nat) (v0 : E) (_hv0 : v0 ≠ 0) :
     powerIteration (opsOf (0 : E →L[ℝ] E)) (k + 1) v0 = .ok (0, 0) ∧
     operatorNorm (opsOf (0 : E →L[ℝ] E)) (k + 1) v0 = .ok 0 := by
   have hp : powerIteration (opsOf (0 : E →L[ℝ] E)) (k + 1) v0 = .ok (0, 0) := by
@@ -147,6 +152,98 @@ theorem C17_budget (B : E →L[ℝ] E) (maxiter : Nat) (v0 : E) :
     simp only at hm
     subst hm
     exact ⟨m, q2, rfl⟩
+
+/-! ### convergence under a spectral gap -/
+
+section converge
+
+variable {ι : Type} [Fintype ι] [DecidableEq ι]
+
+/-- **Geometric convergence of `power_iteration`.**  `B` diagonal in an orthonormal basis `b` with eigenvalues
+    `lam`; one eigenvalue dominates (`Dominant lam i0 r`: `lam i0 > 0`, all others in `[0, r·lam i0]`, `r ≤ 1`); the
+    random start has a non-zero component along the dominant eigenvector.  Then the estimate returned with
+    budget `k+1` satisfies
+
+        lam i0 · (1 − r^(2k) · ‖v0 − ⟨b i0,v0⟩ b i0‖² / ⟨b i0,v0⟩²)  ≤  mu  ≤  lam i0 . -/
+theorem C17_power_converges_rate (B : E →L[ℝ] E) (b : OrthonormalBasis ι ℝ E) (lam : ι → ℝ)
+    (hB : IsDiagIn B b lam) (i0 : ι) (r : ℝ) (hd : Dominant lam i0 r) (v0 : E) (hc0 : inner ℝ (b i0) v0 ≠ 0)
+    (k : Nat) (mu : ℝ) (v : E) (h : powerIteration (opsOf B) (k + 1) v0 = .ok (mu, v)) :
+    mu ≤ lam i0 ∧
+      lam i0 - lam i0 * (r ^ (2 * k) * ((‖v0‖ ^ 2 - inner ℝ (b i0) v0 ^ 2) / inner ℝ (b i0) v0 ^ 2)) ≤ mu := by
+  have := powerIteration_gap hB hd v0 hc0 k mu v h
+  simpa only [tail, co, pow_mul, sq] using this
+
+/-- hence, when the gap is strict (`r < 1`), the estimates converge to the dominant eigenvalue as the budget grows -/
+theorem C17_power_converges (B : E →L[ℝ] E) (b : OrthonormalBasis ι ℝ E) (lam : ι → ℝ)
+    (hB : IsDiagIn B b lam) (i0 : ι) (r : ℝ) (hd : Dominant lam i0 r) (hr : r < 1) (v0 : E)
+    (hc0 : inner ℝ (b i0) v0 ≠ 0) (mu : ℕ → ℝ)
+    (h : ∀ k, ∃ v, powerIteration (opsOf B) (k + 1) v0 = .ok (mu k, v)) :
+    Filter.Tendsto mu Filter.atTop (nhds (lam i0)) :=
+  powerIteration_tendsto hB hd hr v0 hc0 mu h
+
+/-- **`operator_norm` converges to the induced 2-norm.**  `B = AᴴA` (Gram operator) diagonal in an orthonormal
+    basis, largest eigenvalue `lam i0 > 0` separated from the rest (`lam i ≤ r·lam i0`, `r < 1`, for `i ≠ i0`),
+    start not orthogonal to the dominant eigenvector.  Then `lam i0 = ‖A‖²` (`σ_max(A)² `), every estimate `c k`
+    (budget `k+1`) satisfies `‖A‖²(1 − r^(2k)·C) ≤ (c k)² ≤ ‖A‖²`, and `c k → ‖A‖`. -/
+theorem C17_opnorm_converges (B : E →L[ℝ] E) (A : E →L[ℝ] F) (hG : IsGram B A) (b : OrthonormalBasis ι ℝ E)
+    (lam : ι → ℝ) (hB : IsDiagIn B b lam) (i0 : ι) (hpos : 0 < lam i0) (r : ℝ) (hr0 : 0 ≤ r) (hr : r < 1)
+    (hgap : ∀ i, i ≠ i0 → lam i ≤ r * lam i0) (v0 : E) (hc0 : inner ℝ (b i0) v0 ≠ 0) (c : ℕ → ℝ)
+    (h : ∀ k, operatorNorm (opsOf B) (k + 1) v0 = .ok (c k)) :
+    lam i0 = ‖A‖ ^ 2 ∧
+    (∀ k, c k ^ 2 ≤ ‖A‖ ^ 2 ∧
+      ‖A‖ ^ 2 - ‖A‖ ^ 2 * (r ^ (2 * k) * ((‖v0‖ ^ 2 - inner ℝ (b i0) v0 ^ 2) / inner ℝ (b i0) v0 ^ 2)) ≤ c k ^ 2) ∧
+    Filter.Tendsto c Filter.atTop (nhds ‖A‖) := by
+  have hd : Dominant lam i0 r := hG.dominant hB hpos hr0 (le_of_lt hr) hgap
+  have hmax : ∀ i, lam i ≤ lam i0 := by
+    intro i
+    by_cases hi : i = i0
+    · rw [hi]
+    · exact le_trans (hgap i hi) (by nlinarith)
+  have hnorm : ‖A‖ = Real.sqrt (lam i0) := hG.opNorm_eq_sqrt hB hmax
+  have hlam : lam i0 = ‖A‖ ^ 2 := by rw [hnorm, Real.sq_sqrt (le_of_lt hpos)]
+  -- the eigenvalue estimates behind the norm estimates
+  have hmu : ∀ k, ∃ mu v, powerIteration (opsOf B) (k + 1) v0 = .ok (mu, v) ∧ c k = Real.sqrt mu :=
+    fun k => operatorNorm_ok _ _ _ _ (h k)
+  choose mu vv hmu using hmu
+  have hv0 : v0 ≠ 0 := by rintro rfl; exact hc0 (by simp)
+  have hmu0 : ∀ k, 0 ≤ mu k := fun k => (C17_rayleigh_le B A hG (k + 1) v0 hv0 (mu k) (vv k) (hmu k).1).1
+  refine ⟨hlam, ?_, ?_⟩
+  · intro k
+    have hb := C17_power_converges_rate B b lam hB i0 r hd v0 hc0 k (mu k) (vv k) (hmu k).1
+    rw [(hmu k).2, Real.sq_sqrt (hmu0 k), ← hlam]
+    exact hb
+  · have ht : Filter.Tendsto mu Filter.atTop (nhds (lam i0)) :=
+      C17_power_converges B b lam hB i0 r hd hr v0 hc0 mu (fun k => ⟨vv k, (hmu k).1⟩)
+    have hc : c = fun k => Real.sqrt (mu k) := funext fun k => (hmu k).2
+    rw [hc, hnorm]
+    exact (Real.continuous_sqrt.tendsto (lam i0)).comp ht
+
+/-- The eigenbasis need not be supplied: on a finite-dimensional space every Gram operator is symmetric and
+    Mathlib's spectral theorem provides eigenvalues `ev 0 ≥ ev 1 ≥ …` with an orthonormal eigenbasis.  If the
+    largest one is positive and separated (`ev i ≤ r·ev 0`, `r < 1`, for `i ≠ 0`) and the start is not orthogonal
+    to the top eigenvector, `operator_norm` converges to `‖A‖`. -/
+theorem C17_opnorm_converges_spectral [FiniteDimensional ℝ E] {n : Nat} (hn : Module.finrank ℝ E = n + 1)
+    (B : E →L[ℝ] E) (A : E →L[ℝ] F) (hG : IsGram B A) (hS : (B : E →ₗ[ℝ] E).IsSymmetric)
+    (hpos : 0 < hS.eigenvalues hn 0) (r : ℝ) (hr0 : 0 ≤ r) (hr : r < 1)
+    (hgap : ∀ i, i ≠ 0 → hS.eigenvalues hn i ≤ r * hS.eigenvalues hn 0) (v0 : E)
+    (hc0 : inner ℝ (hS.eigenvectorBasis hn 0) v0 ≠ 0) (c : ℕ → ℝ)
+    (h : ∀ k, operatorNorm (opsOf B) (k + 1) v0 = .ok (c k)) :
+    Filter.Tendsto c Filter.atTop (nhds ‖A‖) := by
+  have hB : IsDiagIn B (hS.eigenvectorBasis hn) (hS.eigenvalues hn) := by
+    intro i
+    have := hS.apply_eigenvectorBasis hn i
+    simp only [ContinuousLinearMap.coe_coe, RCLike.ofReal_real_eq_id, id_eq] at this
+    exact this
+  exact (C17_opnorm_converges B A hG (hS.eigenvectorBasis hn) (hS.eigenvalues hn) hB 0 hpos r hr0 hr hgap v0 hc0 c h).2.2
+
+/-- a Gram operator is symmetric (the hypothesis `hS` above is implied by `hG`) -/
+theorem C17_gram_symmetric (B : E →L[ℝ] E) (A : E →L[ℝ] F) (hG : IsGram B A) :
+    (B : E →ₗ[ℝ] E).IsSymmetric := by
+  intro x y
+  show inner ℝ (B x) y = inner ℝ x (B y)
+  rw [hG x y, real_inner_comm (B y) x, hG y x, real_inner_comm]
+
+end converge
 
 end power
 
@@ -327,6 +424,63 @@ theorem C17_scaledid_norms (c : ℝ) (N : Nat) (hN : 0 < N) (o : Ord) :
 
 end norms
 
+/-! ### `MatrixOperator.norm`: the entrywise orders are the induced norms -/
+
+section matnorm
+variable {m n : Nat}
+
+/-- `MatrixOperator.norm(inf)` (model `matNorm`, i.e. what `jnp.linalg.norm(A, inf)` computes: the largest absolute row
+    sum) is the norm induced by the vector ∞-norm: `‖Mx‖∞ ≤ c` whenever `‖x‖∞ ≤ 1`, with equality for a sign vector. -/
+theorem C17_mat_norm_inf (M : Matrix (Fin m) (Fin n) ℝ) (hm : 0 < m) :
+    ∃ c, matNorm .pinf (absRowsR M) (absColsR M) = some c ∧
+      IsMaxOf c (List.ofFn fun i => ∑ j, |M i j|) ∧
+      (∀ x : Fin n → ℝ, (∀ j, |x j| ≤ 1) → ∀ i, |∑ j, M i j * x j| ≤ c) ∧
+      (∃ x : Fin n → ℝ, (∀ j, |x j| ≤ 1) ∧ ∃ i, |∑ j, M i j * x j| = c) := by
+  obtain ⟨c, hc⟩ := lmax_isSome (ofFn_ne_nil hm fun i => ∑ j, |M i j|)
+  have hspec := lmax_spec hc
+  refine ⟨c, by simp only [matNorm, absRowsR_sums, hc], hspec, ?_, ?_⟩
+  · intro x hx i
+    exact le_trans (row_bound M x hx i) (hspec.2 _ (by simp [List.mem_ofFn]))
+  · obtain ⟨i, hi⟩ := (List.mem_ofFn' _ _).1 hspec.1
+    obtain ⟨x, hx, hsum⟩ := row_attained M i
+    refine ⟨x, hx, i, ?_⟩
+    rw [hsum, abs_of_nonneg (Finset.sum_nonneg fun j _ => abs_nonneg _)]
+    exact hi
+
+/-- `MatrixOperator.norm(1)` (largest absolute column sum) is the norm induced by the vector 1-norm:
+    `‖Mx‖₁ ≤ c‖x‖₁` with equality at a basis vector. -/
+theorem C17_mat_norm_one (M : Matrix (Fin m) (Fin n) ℝ) (hn : 0 < n) :
+    ∃ c, matNorm (.int 1) (absRowsR M) (absColsR M) = some c ∧
+      IsMaxOf c (List.ofFn fun j => ∑ i, |M i j|) ∧
+      (∀ x : Fin n → ℝ, ∑ i, |∑ j, M i j * x j| ≤ c * ∑ j, |x j|) ∧
+      (∃ x : Fin n → ℝ, ∑ j, |x j| = 1 ∧ ∑ i, |∑ j, M i j * x j| = c) := by
+  obtain ⟨c, hc⟩ := lmax_isSome (ofFn_ne_nil hn fun j => ∑ i, |M i j|)
+  have hspec := lmax_spec hc
+  refine ⟨c, by simp only [matNorm, absColsR_sums, hc], hspec, ?_, ?_⟩
+  · intro x
+    exact col_bound M c (fun j => hspec.2 _ (by simp [List.mem_ofFn])) x
+  · obtain ⟨j0, hj⟩ := (List.mem_ofFn' _ _).1 hspec.1
+    obtain ⟨h1, h2⟩ := col_attained M j0
+    exact ⟨fun j => if j = j0 then 1 else 0, h2, by rw [h1]; exact hj⟩
+
+/-- `ord = -inf` / `-1`: the smallest absolute row / column sum (numpy's definition of these orders) -/
+theorem C17_mat_norm_min (M : Matrix (Fin m) (Fin n) ℝ) (hm : 0 < m) (hn : 0 < n) :
+    (∃ c, matNorm .ninf (absRowsR M) (absColsR M) = some c ∧ IsMinOf c (List.ofFn fun i => ∑ j, |M i j|)) ∧
+    (∃ c, matNorm (.int (-1)) (absRowsR M) (absColsR M) = some c ∧ IsMinOf c (List.ofFn fun j => ∑ i, |M i j|)) := by
+  constructor
+  · obtain ⟨c, hc⟩ := lmin_isSome (ofFn_ne_nil hm fun i => ∑ j, |M i j|)
+    exact ⟨c, by simp only [matNorm, absRowsR_sums, hc], lmin_spec hc⟩
+  · obtain ⟨c, hc⟩ := lmin_isSome (ofFn_ne_nil hn fun j => ∑ i, |M i j|)
+    exact ⟨c, by simp only [matNorm, absColsR_sums, hc], lmin_spec hc⟩
+
+/-- `ord = None / 'fro'`: the Frobenius norm `√ΣᵢΣⱼ Mᵢⱼ²` -/
+theorem C17_mat_norm_fro (M : Matrix (Fin m) (Fin n) ℝ) :
+    matNorm .fro (absRowsR M) (absColsR M) = some (Real.sqrt (∑ i, ∑ j, M i j ^ 2)) ∧
+    matNorm .none (absRowsR M) (absColsR M) = matNorm .fro (absRowsR M) (absColsR M) :=
+  matNorm_fro_eq M
+
+end matnorm
+
 /-! ### parameter estimators -/
 
 /-- `PDHG.estimate_parameters` with a safety factor: `τσc² = 1/factor` — hence `< 1` for every
@@ -382,5 +536,19 @@ example : diagNorm .nuc (List.ofFn ![(1 : ℝ), -3, 2]) = .ok 6 := by
   rw [diagNorm_nuc]; simp [Fin.sum_univ_succ]; norm_num
 -- a Gram operator exists on ℝ (A = 2·id, B = 4·id) and the identity is its own Gram operator
 example : IsGram (ContinuousLinearMap.id ℝ ℝ) (ContinuousLinearMap.id ℝ ℝ) := fun _ _ => rfl
+
+-- convergence hypotheses are satisfiable for any prescribed spectrum: diag(4,1) on ℝ², gap ratio r = 1/4,
+-- it is the Gram operator of diag(2,1), and the start (1,1) has a non-zero dominant component
+example : ∃ (B A : EuclideanSpace ℝ (Fin 2) →L[ℝ] EuclideanSpace ℝ (Fin 2)),
+    IsGram B A ∧ IsDiagIn B (EuclideanSpace.basisFun (Fin 2) ℝ) ![4, 1] ∧ Dominant ![(4 : ℝ), 1] 0 (1 / 4) ∧
+    inner ℝ ((EuclideanSpace.basisFun (Fin 2) ℝ) 0) (WithLp.toLp 2 ![(1 : ℝ), 1]) ≠ 0 := by
+  refine ⟨diagOp _ ![4, 1], diagOp _ (fun i => Real.sqrt (![4, 1] i)), isGram_diagOp _ _ ?_, isDiagIn_diagOp _ _, ?_, ?_⟩
+  · intro i; fin_cases i <;> simp
+  · refine ⟨by simp, by norm_num, by norm_num, ?_⟩
+    intro i hi
+    fin_cases i
+    · exact absurd rfl hi
+    · simp
+  · simp [EuclideanSpace.basisFun_apply, PiLp.inner_apply]
 
 end Scico.Props.C17
